@@ -38,7 +38,7 @@ ASSUMPTIONS = [
     "asserted under its own kind C16.mute_zero_on_flag.even_width (fails on the unchanged tree: known finding "
     "even_taper_width)",
 ]
-BUDGET = {"quick": 8000, "thorough": 200000}
+BUDGET = {"quick": 8000, "thorough": 150000}
 SHRINK = {"quick": True, "thorough": True}
 ENUM_NS = {"quick": 10, "thorough": 13}
 ENUM_M = {"quick": [1, 3, 5, 7, 9], "thorough": [1, 3, 5, 7, 9, 11, 13, 31]}
